@@ -197,7 +197,7 @@ def run(ctx):
         j["tarfmt"] = rng.choice(["pax", "pax", "gnu", "ustar"])             # tar header format
         j["tfeat"] = rng.choice(["default", "minimal"]) if j["tgt"] == "reg" else "default"   # target registry features
         j["chunk"] = rng.choice([0, 0, 1]) if j["tgt"] == "reg" else 0       # client uploads in 128 byte chunks
-        j["sfeat"], j["dkcomp"], j["dkls"] = "default", "none", 0
+        j["sfeat"], j["dkcomp"], j["dkls"], j["spath"] = "default", "none", 0, "plain"
         if cat["kind"] == "docker" and cat["lp"] != "dkrest":
             j["src"], j["xref"] = "none", 0
             j["dkcomp"], j["dkls"] = rng.choice(["none", "gzip", "zstd", "xz"]), rng.choice([0, 1])
@@ -205,6 +205,8 @@ def run(ctx):
             j["src"], j["xref"] = rng.choice(["reg", "dir"]), rng.choice([0, 0, 0, 1])
             if j["src"] == "reg":
                 j["sfeat"] = rng.choice(["default", "default", "minimal"])   # source registry features
+            else:
+                j["spath"] = rng.choice(["plain", "plain", "odd"])          # directory name of the layout source
             if len(cat["roots"]) > 1:
                 j["xref"] = 0       # the selections of the catalogue name the tags the images are exported under
             else:
@@ -218,15 +220,15 @@ def run(ctx):
     for j in jobs:
         cat = cats["/".join(j["sid"])]["sc"]
         if cat["kind"] == "oci" and len(cat["roots"]) == 1:
-            groups.setdefault((cat["g"], j["src"], j["sfeat"], j["gzip"], j["xref"], j["xn"]), j)
-    for (g, src, sf, gz, xr, xn), j in sorted(groups.items()):
+            groups.setdefault((cat["g"], j["src"], j["sfeat"], j["gzip"], j["xref"], j["xn"], j["spath"]), j)
+    for (g, src, sf, gz, xr, xn, sp), j in sorted(groups.items()):
         for tgt in ("reg", "dir"):
             n += 1
             sid = [g, "none", "def"]
             if "/".join(sid) not in cats:
                 continue
             jobs.append({"id": "%s/asis#%d" % (g, n), "sid": sid, "arch": [], "origin": "asis", "src": src, "tgt": tgt,
-                         "sfeat": sf, "gzip": gz, "xref": xr, "xn": xn, "tfeat": rng.choice(["default", "minimal"]) if tgt == "reg" else "default",
+                         "sfeat": sf, "gzip": gz, "xref": xr, "xn": xn, "spath": sp, "tfeat": rng.choice(["default", "minimal"]) if tgt == "reg" else "default",
                          "chunk": rng.choice([0, 1]) if tgt == "reg" else 0})
     with open(drv_in, "w") as f:
         for k in sorted(cats):
@@ -331,6 +333,8 @@ def run(ctx):
         if t is None:
             g = b.get("meta", {}).get("graph", "?")
             sig = "export:%s:%s" % (clause, g)
+            if b.get("meta", {}).get("srcpath") == "odd":
+                sig += ":oddpath"       # layout source in a directory whose name ends with "_"
             what = "%s (block %s%s)" % (detail, b["block"], ", export error: " + b["meta"]["export_error"]
                                         if b.get("meta", {}).get("export_error") else "")
             ctx.report(sig, what, {"block": b["block"], "lines": [{k: v for k, v in x.items() if k not in ("od", "os", "oa", "oh", "ep", "ec", "er", "ei")}
@@ -480,7 +484,7 @@ def run(ctx):
         "vacuous_actions": vacuous if vacuous is not None else "checked in the thorough tier",
         "actions_taken_only_with_as_found_switches": only_as_found if only_as_found is not None else "checked in the thorough tier",
         "dimension_values_seen": {k: sorted({str(t["scn"].get(k)) for _, t in traces if t["scn"].get(k) is not None})
-                                  for k in ("src", "tgt", "sfeat", "tfeat", "chunk", "gzip", "rcomp", "tarfmt", "xn", "xref", "dkcomp", "dkls")},
+                                  for k in ("src", "tgt", "sfeat", "spath", "tfeat", "chunk", "gzip", "rcomp", "tarfmt", "xn", "xref", "dkcomp", "dkls")},
         "export_names": sorted({"%s%s" % (t["scn"].get("xn"), "+override" if t["scn"].get("xref") else "") for _, t in traces}),
         "entry_points": ["RegClient.ImageExport", "RegClient.ImageImport", "ImageWithExportCompress", "ImageWithExportRef",
                          "ImageWithImportName", "scheme reg + ocidir blob/manifest put"],
